@@ -116,16 +116,26 @@ Proof. revert i. induction l as [|x r IH]; intros i; cbn [enumerate_from map snd
 Lemma enumerate_from_length i (l : list A) : length (enumerate_from i l) = length l.
 Proof. revert i. induction l as [|x r IH]; intros i; cbn [enumerate_from length]; [reflexivity|]. f_equal. apply IH. Qed.
 
-Lemma assoc_enumerate i k (l : list A) :
-  assoc i (enumerate_from k l) = if i <? k then None else nth_error l (Z.to_nat (i - k)).
+Lemma zget_nth_error (l : list A) i : 0 <= i -> zget l i = nth_error l (Z.to_nat i).
 Proof.
-  revert k. induction l as [|x r IH]; intros k; cbn [enumerate_from assoc].
-  - destruct (i <? k); [reflexivity|]. destruct (Z.to_nat (i - k)); reflexivity.
+  revert i. induction l as [|x r IH]; intros i Hi; cbn [zget].
+  - destruct (Z.to_nat i); reflexivity.
+  - destruct (i =? 0) eqn:E.
+    + apply Z.eqb_eq in E. subst. reflexivity.
+    + apply Z.eqb_neq in E. rewrite IH by lia.
+      replace (Z.to_nat i) with (S (Z.to_nat (i - 1))) by lia. reflexivity.
+Qed.
+
+Lemma assoc_enumerate i k (l : list A) :
+  assoc i (enumerate_from k l) = if i <? k then None else zget l (i - k).
+Proof.
+  revert k. induction l as [|x r IH]; intros k; cbn [enumerate_from assoc zget].
+  - destruct (i <? k); reflexivity.
   - destruct (i =? k) eqn:E.
     + apply Z.eqb_eq in E. subst. rewrite Z.ltb_irrefl, Z.sub_diag. reflexivity.
     + apply Z.eqb_neq in E. rewrite IH.
       destruct (i <? k) eqn:E1; destruct (i <? k + 1) eqn:E2; try lia; try reflexivity.
-      replace (Z.to_nat (i - k)) with (S (Z.to_nat (i - (k + 1)))) by lia. reflexivity.
+      destruct (i - k =? 0) eqn:E3; [lia|]. f_equal. lia.
 Qed.
 
 Lemma produces_at_agrees_proof (t : tx A) i : produces_at t i = assoc i (produces t).
